@@ -5,7 +5,7 @@ Close Scope N_scope.
 (* ------------------------------------------------------------------ standalone forms of the nested loops *)
 Fixpoint ser_fields (fs : list field) (l : list value) : list (str * json) :=
   match fs, l with
-  | Field n _ ft :: fs', x :: l' => (n, ser ft x) :: ser_fields fs' l'
+  | Field n _ sk ft :: fs', x :: l' => if skipped sk x then ser_fields fs' l' else (n, ser ft x) :: ser_fields fs' l'
   | _, _ => []
   end.
 Fixpoint ser_var (vs : list ty) (i : nat) (x : value) : json :=
@@ -17,7 +17,7 @@ Fixpoint ser_var (vs : list ty) (i : nat) (x : value) : json :=
 Fixpoint de_fields (o : list (str * json)) (fs : list field) : option (list value) :=
   match fs with
   | [] => Some []
-  | Field n d ft :: fs' =>
+  | Field n d _ ft :: fs' =>
       match (match lookup n o with Some x => de ft x | None => missing d ft end), de_fields o fs' with
       | Some v, Some r => Some (v :: r)
       | _, _ => None
@@ -31,7 +31,7 @@ Fixpoint de_var (j : json) (vs : list ty) (i : nat) : option value :=
 Fixpoint ty_fields (fs : list field) (l : list value) : bool :=
   match fs, l with
   | [], [] => true
-  | Field _ _ ft :: fs', x :: l' => has_ty ft x && ty_fields fs' l'
+  | Field _ _ _ ft :: fs', x :: l' => has_ty ft x && ty_fields fs' l'
   | _, _ => false
   end.
 Fixpoint ty_var (vs : list ty) (i : nat) (x : value) : bool :=
@@ -40,7 +40,7 @@ Fixpoint ty_var (vs : list ty) (i : nat) (x : value) : bool :=
   | _ :: vs', S i' => ty_var vs' i' x
   | [], _ => false
   end.
-Fixpoint wf_fields (fs : list field) : bool := match fs with [] => true | Field _ _ ft :: fs' => wf ft && wf_fields fs' end.
+Fixpoint wf_fields (fs : list field) : bool := match fs with [] => true | Field _ d sk ft :: fs' => skip_ok sk d ft && wf ft && wf_fields fs' end.
 Fixpoint wf_all (vs : list ty) : bool := match vs with [] => true | t' :: vs' => wf t' && wf_all vs' end.
 
 Lemma ser_struct fs l : ser (TStruct fs) (VRec l) = JObj (ser_fields fs l).
@@ -48,15 +48,15 @@ Proof. reflexivity. Qed.
 Lemma ser_untagged vs i x : ser (TUntagged vs) (VVar i x) = ser_var vs i x.
 Proof. first [reflexivity | cbn [ser]; revert i; induction vs as [|t' vs IH]; intros i; [destruct i; reflexivity|]; destruct i; [reflexivity|]; cbn [ser_var]; apply IH]. Qed.
 Lemma de_struct fs o : de (TStruct fs) (JObj o) = option_map VRec (de_fields o fs).
-Proof. first [reflexivity | cbn [de]; f_equal; induction fs as [|[n d ft] fs IH]; [reflexivity|]; cbn [de_fields]; rewrite <- IH; reflexivity]. Qed.
+Proof. first [reflexivity | cbn [de]; f_equal; induction fs as [|[n d sk ft] fs IH]; [reflexivity|]; cbn [de_fields]; rewrite <- IH; reflexivity]. Qed.
 Lemma de_untagged vs j : de (TUntagged vs) j = de_var j vs 0.
 Proof. first [reflexivity | cbn [de]; generalize 0; induction vs as [|t' vs IH]; intros k; [reflexivity|]; cbn [de_var]; rewrite <- IH; reflexivity]. Qed.
 Lemma has_ty_struct fs l : has_ty (TStruct fs) (VRec l) = ty_fields fs l.
-Proof. first [reflexivity | cbn [has_ty]; revert l; induction fs as [|[n d ft] fs IH]; intros l; [destruct l; reflexivity|]; destruct l as [|x l]; [reflexivity|]; cbn [ty_fields]; rewrite <- IH; reflexivity]. Qed.
+Proof. first [reflexivity | cbn [has_ty]; revert l; induction fs as [|[n d sk ft] fs IH]; intros l; [destruct l; reflexivity|]; destruct l as [|x l]; [reflexivity|]; cbn [ty_fields]; rewrite <- IH; reflexivity]. Qed.
 Lemma has_ty_untagged vs i x : has_ty (TUntagged vs) (VVar i x) = ty_var vs i x.
 Proof. first [reflexivity | cbn [has_ty]; revert i; induction vs as [|t' vs IH]; intros i; [destruct i; reflexivity|]; destruct i; [reflexivity|]; cbn [ty_var]; apply IH]. Qed.
 Lemma wf_struct fs : wf (TStruct fs) = nodup_str (map f_name fs) && wf_fields fs.
-Proof. first [reflexivity | cbn [wf]; f_equal; induction fs as [|[n d ft] fs IH]; [reflexivity|]; cbn [wf_fields]; rewrite <- IH; reflexivity]. Qed.
+Proof. first [reflexivity | cbn [wf]; f_equal; induction fs as [|[n d sk ft] fs IH]; [reflexivity|]; cbn [wf_fields]; rewrite <- IH; reflexivity]. Qed.
 Lemma wf_untagged vs : wf (TUntagged vs) = forallb is_struct vs && all_rejects vs && wf_all vs.
 Proof. first [reflexivity | cbn [wf]; f_equal; induction vs as [|t' vs IH]; [reflexivity|]; cbn [wf_all]; rewrite <- IH; reflexivity]. Qed.
 
@@ -82,7 +82,7 @@ Fixpoint ty_ind' (t : ty) : P t :=
   | TStruct fs => HStruct fs ((fix go (fs : list field) : Forall (fun f => P (f_ty f)) fs :=
                                  match fs with
                                  | [] => Forall_nil _
-                                 | Field n d ft :: fs' => @Forall_cons _ (fun f => P (f_ty f)) (Field n d ft) fs' (ty_ind' ft) (go fs')
+                                 | Field n d sk ft :: fs' => @Forall_cons _ (fun f => P (f_ty f)) (Field n d sk ft) fs' (ty_ind' ft) (go fs')
                                  end) fs)
   | TUnitEnum names => HEnum names
   | TUntagged vs => HUnt vs ((fix go (vs : list ty) : Forall P vs :=
@@ -129,36 +129,56 @@ Qed.
 
 Lemma ser_fields_keys fs l : forall k, In k (map fst (ser_fields fs l)) -> In k (map f_name fs).
 Proof.
-  revert l. induction fs as [|[n d ft] fs IH]; intros l k; [intros []|]. destruct l as [|x l]; [intros []|].
-  cbn. intros [<-|H]; [left; reflexivity|right; eapply IH; exact H].
+  revert l. induction fs as [|[n d sk ft] fs IH]; intros l k; [intros []|]. destruct l as [|x l]; [intros []|].
+  cbn [ser_fields]. destruct (skipped sk x); cbn; [intros H; right; eapply IH; exact H|].
+  intros [<-|H]; [left; reflexivity|right; eapply IH; exact H].
 Qed.
 
 Lemma lookup_none n o : mem_str n (map fst o) = false -> lookup n o = None.
 Proof. intros H. rewrite <- (app_nil_r o). rewrite lookup_app_notin by exact H. reflexivity. Qed.
 
 (* ------------------------------------------------------------------ structs *)
+(* an omitted member comes back as the omitted value *)
+Lemma skipped_missing sk d ft x : skip_ok sk d ft = true -> has_ty ft x = true -> skipped sk x = true -> missing d ft = Some x.
+Proof.
+  destruct sk; cbn [skip_ok]; try discriminate; intros Hk Ht Hs.
+  - destruct ft; try discriminate Hk. destruct x as [| | |[y|]| | | |]; try discriminate Hs. reflexivity.
+  - apply andb_true_iff in Hk. destruct Hk as [-> Hk]. destruct ft; try discriminate Hk;
+      destruct x as [[|]| | | |[|]| | |]; try discriminate Hs; try discriminate Ht; reflexivity.
+Qed.
+
 Lemma de_fields_ser fs : Forall (fun f => forall v, wf (f_ty f) = true -> has_ty (f_ty f) v = true -> de (f_ty f) (ser (f_ty f) v) = Some v) fs ->
   forall l pre, nodup_str (map f_name fs) = true -> wf_fields fs = true -> ty_fields fs l = true ->
   (forall n, In n (map f_name fs) -> mem_str n (map fst pre) = false) ->
   de_fields (pre ++ ser_fields fs l) fs = Some l.
 Proof.
-  induction 1 as [|[n d ft] fs Hf _ IH]; intros l pre Hn Hw Ht Hd.
+  induction 1 as [|[n d sk ft] fs Hf _ IH]; intros l pre Hn Hw Ht Hd.
   - destruct l; [reflexivity|discriminate].
   - destruct l as [|x l]; [discriminate|]. cbn [map f_name nodup_str wf_fields ty_fields f_ty] in *.
-    apply andb_true_iff in Hn, Hw, Ht. destruct Hn as [Hn1 Hn2], Hw as [Hw1 Hw2], Ht as [Ht1 Ht2].
-    cbn [ser_fields de_fields]. rewrite lookup_app_notin by (apply Hd; left; reflexivity).
-    cbn [lookup]. rewrite str_eqb_refl. rewrite (Hf x Hw1 Ht1).
-    replace (pre ++ (n, ser ft x) :: ser_fields fs l) with ((pre ++ [(n, ser ft x)]) ++ ser_fields fs l) by (rewrite <- app_assoc; reflexivity).
-    rewrite IH; [reflexivity|assumption|assumption|assumption|].
-    intros m Hm. rewrite map_app. unfold mem_str. rewrite existsb_app. fold (mem_str m (map fst pre)).
-    rewrite (Hd m (or_intror Hm)). cbn. rewrite orb_false_r. apply str_eqb_neq. intros ->.
-    apply negb_true_iff in Hn1. apply mem_str_In in Hm. congruence.
+    apply andb_true_iff in Hn, Hw, Ht. destruct Hn as [Hn1 Hn2], Hw as [Hw0 Hw2], Ht as [Ht1 Ht2].
+    apply andb_true_iff in Hw0. destruct Hw0 as [Hsk Hw1].
+    cbn [ser_fields de_fields]. destruct (skipped sk x) eqn:Es.
+    + (* the member is omitted: no later member carries its name either *)
+      assert (Hnone : lookup n (pre ++ ser_fields fs l) = None).
+      { apply lookup_none. rewrite map_app. unfold mem_str. rewrite existsb_app. fold (mem_str n (map fst pre)).
+        rewrite (Hd n (or_introl eq_refl)). cbn [orb]. destruct (existsb (str_eqb n) (map fst (ser_fields fs l))) eqn:E; [|reflexivity].
+        fold (mem_str n (map fst (ser_fields fs l))) in E. apply mem_str_In in E. apply ser_fields_keys in E. apply mem_str_In in E.
+        apply negb_true_iff in Hn1. congruence. }
+      rewrite Hnone. rewrite (skipped_missing sk d ft x Hsk Ht1 Es).
+      rewrite IH; [reflexivity|assumption|assumption|assumption|]. intros m Hm. apply Hd. right. exact Hm.
+    + rewrite lookup_app_notin by (apply Hd; left; reflexivity).
+      cbn [lookup]. rewrite str_eqb_refl. rewrite (Hf x Hw1 Ht1).
+      replace (pre ++ (n, ser ft x) :: ser_fields fs l) with ((pre ++ [(n, ser ft x)]) ++ ser_fields fs l) by (rewrite <- app_assoc; reflexivity).
+      rewrite IH; [reflexivity|assumption|assumption|assumption|].
+      intros m Hm. rewrite map_app. unfold mem_str. rewrite existsb_app. fold (mem_str m (map fst pre)).
+      rewrite (Hd m (or_intror Hm)). cbn. rewrite orb_false_r. apply str_eqb_neq. intros ->.
+      apply negb_true_iff in Hn1. apply mem_str_In in Hm. congruence.
 Qed.
 
 (* ------------------------------------------------------------------ untagged: an earlier variant rejects *)
 Lemma de_fields_missing o fs : existsb (fun f => required f && negb (mem_str (f_name f) (map fst o))) fs = true -> de_fields o fs = None.
 Proof.
-  induction fs as [|[n d ft] fs IH]; cbn [existsb]; [discriminate|]. intros H. cbn [de_fields].
+  induction fs as [|[n d sk ft] fs IH]; cbn [existsb]; [discriminate|]. intros H. cbn [de_fields].
   apply orb_true_iff in H. destruct H as [H|H].
   - apply andb_true_iff in H. destruct H as [Hr Hm]. apply negb_true_iff in Hm. cbn [f_name] in Hm.
     rewrite (lookup_none n o Hm). unfold required in Hr. cbn [f_ty f_dflt] in Hr. unfold missing.
